@@ -97,11 +97,14 @@ func GenWorld(seed int64, prop string, idx int, steps int) WorldCfg {
 	cfg := WorldCfg{Seed: ws, Prop: prop, Steps: steps, HealBound: 120}
 	cfg.Prof = profileByName(mix[r.Intn(len(mix))], r)
 	nn := []int{1, 2, 3, 3, 3, 4, 5, 5}[r.Intn(8)]
+	if prop == "C19" && r.Intn(4) == 0 {
+		nn = 8 + r.Intn(2) // more than 7 peers: the allocation path of ProgressTracker.Visit
+	}
 	cfg.ElectionTick = []int{3, 5, 10}[r.Intn(3)]
 	cfg.HeartbeatTick = []int{1, 1, 2}[r.Intn(3)]
-	cfg.Universe = min(7, nn+r.Intn(3))
+	cfg.Universe = max(nn, min(7, nn+r.Intn(3)))
 	if cfg.Prof.Name == "churn" {
-		cfg.Universe = min(7, nn+2+r.Intn(2))
+		cfg.Universe = max(nn, min(7, nn+2+r.Intn(2)))
 	}
 	cfg.Durable = r.Intn(8) != 0
 	cfg.Legacy = r.Intn(6) == 0
